@@ -71,6 +71,8 @@ def strategy_(draw, tier):
         c["table"] = draw(st.one_of(tables.synthetic_spec(nmax=300, families=("power", "kinked", "realgas")), tables.synthetic_spec(nmax=300, families=("power", "kinked", "realgas")), tables.shipped_spec()))
     c["pi_frac"] = draw(st.floats(0.3, 1.0))
     c["pi_on_node"] = draw(st.booleans())
+    c["rows"] = "descending" if draw(st.integers(0, 5)) == 0 else "ascending"
+    c["container"] = draw(st.sampled_from(["dict", "dataframe"]))
     return c
 
 
@@ -117,7 +119,16 @@ def check_case(case) -> Result:
     else:
         tab = tables.build(case["table"])
         p_f, p_i = tables.resolve_pair(tab, {"pi_frac": case["pi_frac"], "pi_on_node": case["pi_on_node"], "ratio": case["ratio"]})
-        fluid = lib("FlowProperties", FlowProperties, tables.as_container(tab, "dict"), p_i)
+        if case.get("rows") == "descending":  # rows from high to low pressure: the wrapper's interpolators sort
+            from vf.core import Inadmissible
+
+            try:
+                fluid = FlowProperties(tables.as_container({c: v[::-1].copy() for c, v in tab.items()}, case.get("container", "dict")), p_i)
+            except Exception as e:  # noqa: BLE001 - a wrapper may legitimately insist on increasing pressure
+                raise Inadmissible(f"table with descending rows rejected by the wrapper ({type(e).__name__})") from e
+        else:
+            fluid = lib("FlowProperties", FlowProperties, tables.as_container(tab, case.get("container", "dict")), p_i)
+        res.labels["rows"] = case.get("rows", "ascending")
         res.labels["table"] = case["table"]["family"] + (":" + case["table"]["name"] if case["table"]["family"] == "shipped" else "")
     ratio = p_f / p_i
     res.labels["pf_over_pi"] = "<0.5" if ratio < 0.5 else ("0.5-0.9" if ratio < 0.9 else ("0.9-0.99" if ratio < 0.99 else ">0.99"))
